@@ -18,6 +18,10 @@ separated by ` | `, or `value-error` / `index-error` / `key-error`, or `bad-op`.
   lint | l1 | l2               -> ok pv1 | pv2
   merge | l1 | l2              -> ok merged | pv1 | pv2
   subseq | seq | sub           -> ok pv
+  fvals | r ; r ; … | v…       -> ok 0 1 …   (column-major)
+  frows <c> | r ; r ; … | row  -> ok 0 1 …
+  funique <tn> <td> | y…       -> ok 1 0 …   (tol = tn/td)
+Float / mixed inputs are dyadic (k/4) and sent scaled by 4.
 -/
 open PyYetiVerif PyYetiVerif.Uset PyYetiVerif.Locate
 
@@ -140,6 +144,18 @@ def answer (line : String) : String :=
       match ints a, ints b with
       | some l1, some l2 => reply (findSubseq l1 l2) showL
       | _, _ => "bad-op"
+  | ["fvals"], [a, b] =>
+      match rows a, ints b with
+      | some m, some v => "ok " ++ showB (findVals m v)
+      | _, _ => "bad-op"
+  | ["frows", c], [a, b] =>
+      match c.toNat?, rows a, ints b with
+      | some c, some m, some r => "ok " ++ showB (findRows m c r)
+      | _, _, _ => "bad-op"
+  | ["funique", tn, td], [y] =>
+      match tn.toInt?, td.toNat?, ints y with
+      | some tn, some td, some y => reply (findUnique y tn td) showB
+      | _, _, _ => "bad-op"
   | _, _ => "bad-op"
 
 partial def loop (h : IO.FS.Stream) (out : IO.FS.Stream) : IO Unit := do
